@@ -611,7 +611,31 @@ func c13(c *Ctx) {
 						if !ok {
 							continue
 						}
-						if _, f, base, ok := core.FieldRef(st.Addr); ok && (f == "Node" || f == "Code") && core.SameValue(core.Unwrap(st.Val), hashed) {
+						isHashed := func(v ssa.Value) bool {
+							v = core.Unwrap(v)
+							if core.SameValue(v, hashed) {
+								return true
+							}
+							// the result of a written-out helper: the hashed item on its success
+							// exit, nil on its error exits (which the hash gate above rules out here)
+							ph, ok := v.(*ssa.Phi)
+							if !ok || w != nil {
+								return false
+							}
+							n := 0
+							for _, e := range ph.Edges {
+								e = core.Unwrap(e)
+								if core.IsNilConst(e) {
+									continue
+								}
+								if !core.SameValue(e, hashed) {
+									return false
+								}
+								n++
+							}
+							return n > 0
+						}
+						if _, f, base, ok := core.FieldRef(st.Addr); ok && (f == "Node" || f == "Code") && isHashed(st.Val) {
 							// that container is serialised into the buffer whose bytes are stored
 							ser := false
 							core.Calls(fn, func(c3 ssa.CallInstruction) {
@@ -745,6 +769,23 @@ func c13(c *Ctx) {
 	nBranch, nExt := 0, 0
 	for _, st := range recs {
 		rc := st.anchor
+		// library form of the extension step: rest, found := bytes.CutPrefix(path, key); continue
+		// with rest only when found (rest is then path[len(key):] and the whole key was compared)
+		if ex, isEx := st.rest.(*ssa.Extract); isEx && ex.Index == 0 {
+			if cc, isCall := ex.Tuple.(*ssa.Call); isCall && core.CalleeID(cc) == "bytes.CutPrefix" && len(cc.Call.Args) == 2 && cc.Call.Args[0] == ssa.Value(pathT) {
+				_, f, okKey := core.LoadedField(cc.Call.Args[1])
+				foundFact := core.AnyFact(func(fc core.Fact) bool {
+					if fc.Op != token.ILLEGAL || !fc.Truth {
+						return false
+					}
+					e2, ok := fc.V.(*ssa.Extract)
+					return ok && e2.Tuple == ex.Tuple && e2.Index == 1
+				})
+				nExt++
+				r.Check(okKey && f == "Key" && core.InstrGuarded(rc, foundFact, nil) == nil, "R4.traversal", tn+" extension-consumes-key", p.Pos(core.InstrPos(rc)), "the walk continues with what bytes.CutPrefix(path, key) left, only when the key was a prefix", "the extension case does not consume exactly the nibbles it compared")
+				continue
+			}
+		}
 		sl, ok := st.rest.(*ssa.Slice)
 		if !ok || sl.X != ssa.Value(pathT) || sl.High != nil {
 			r.Fail("R4.traversal", tn+" recursion-path", p.Pos(core.InstrPos(rc)), "the recursion does not continue with a suffix of the path")
@@ -932,7 +973,7 @@ func keccakOperand(v ssa.Value) (ssa.Value, bool) {
 	if !ok {
 		return nil, false
 	}
-	if core.CalleeID(cc) == keccak256 {
+	if core.CalleeID(cc) == keccak256 || core.CalleeID(cc) == keccak256+"Hash" {
 		el := core.VariadicElems(cc.Call.Args[0])
 		if len(el) == 1 {
 			return el[0], true
